@@ -292,6 +292,14 @@ func (fc *followerController) NewTerm(req *proto.NewTermRequest) (*proto.NewTerm
 	fc.status = proto.ServingStatus_FENCED
 	fc.closeStreamNoMutex(nil)
 
+	// The head entry reported to the coordinator must be the real end of the log. Entries that were
+	// appended but not synced yet are not visible to the WAL readers: flush them now, while holding the
+	// lock, so that nothing can become durable (and later shadow the entries of the new leader) after
+	// the head has been reported.
+	if err := fc.wal.Sync(fc.ctx); err != nil {
+		return nil, errors.Wrap(err, "failed to sync the wal")
+	}
+
 	lastEntryId, err := getLastEntryIdInWal(fc.wal)
 	if err != nil {
 		fc.log.Warn(
@@ -385,6 +393,13 @@ func (fc *followerController) Replicate(stream proto.OxiaLogReplication_Replicat
 
 	closeStreamWg := concurrent.NewWaitGroup(1)
 	fc.closeStreamWg = closeStreamWg
+	term := fc.term
+	lastAckedOffset := fc.wal.LastOffset()
+	if fc.wal.FirstOffset() == wal.InvalidOffset {
+		// The wal is empty (eg: a snapshot was just installed): the entries up to the head offset are only
+		// in the db, there is nothing to ack for them
+		lastAckedOffset = fc.lastAppendedOffset
+	}
 	fc.Unlock()
 
 	go process.DoWithLabels(
@@ -402,7 +417,7 @@ func (fc *followerController) Replicate(stream proto.OxiaLogReplication_Replicat
 			"oxia":  "add-entries-sync",
 			"shard": fmt.Sprintf("%d", fc.shardId),
 		},
-		func() { fc.handleReplicateSync(stream) },
+		func() { fc.handleReplicateSync(stream, term, lastAckedOffset) },
 	)
 
 	return closeStreamWg.Wait(fc.ctx)
@@ -481,7 +496,10 @@ func (fc *followerController) append(req *proto.Append, stream proto.OxiaLogRepl
 	return nil
 }
 
-func (fc *followerController) handleReplicateSync(stream proto.OxiaLogReplication_ReplicateServer) {
+// handleReplicateSync syncs the WAL after the entries have been appended and acks them to the leader.
+// `term` is the term of the node when the stream was opened, `lastAckedOffset` the last offset
+// that was already synced at that point: every entry that becomes durable after it is acked once.
+func (fc *followerController) handleReplicateSync(stream proto.OxiaLogReplication_ReplicateServer, term int64, lastAckedOffset int64) {
 	for {
 		fc.Lock()
 		if err := fc.syncCond.Wait(stream.Context()); err != nil {
@@ -491,21 +509,35 @@ func (fc *followerController) handleReplicateSync(stream proto.OxiaLogReplicatio
 		}
 		fc.Unlock()
 
-		oldHeadOffset := fc.wal.LastOffset()
-
 		if err := fc.wal.Sync(stream.Context()); err != nil {
 			fc.closeStream(err)
 			return
 		}
 
-		// Ack all the entries that were synced in the last round
+		// Ack all the entries that were synced since the last round (by this routine or by anyone else
+		// that had to sync the WAL in the meantime).
+		// The acks are sent while holding the lock and only if the node is still in the term in which
+		// the stream was opened: once the node has been fenced by a newer term (its log might have been
+		// truncated and re-written since) nothing must be acknowledged to the leader that opened the stream.
+		fc.Lock()
+		if fc.term != term {
+			fc.Unlock()
+			return
+		}
 		newHeadOffset := fc.wal.LastOffset()
-		for offset := oldHeadOffset + 1; offset <= newHeadOffset; offset++ {
+		if newHeadOffset < lastAckedOffset {
+			// The log was truncated in the meantime
+			lastAckedOffset = newHeadOffset
+		}
+		for offset := lastAckedOffset + 1; offset <= newHeadOffset; offset++ {
 			if err := stream.Send(&proto.Ack{Offset: offset}); err != nil {
-				fc.closeStream(err)
+				fc.closeStreamNoMutex(err)
+				fc.Unlock()
 				return
 			}
 		}
+		lastAckedOffset = newHeadOffset
+		fc.Unlock()
 
 		fc.applyEntriesCond.Signal()
 	}
